@@ -7,7 +7,7 @@ operations (`set`, `erase`, `clearOneof`, `setSingular`, `appendList`).  Shared 
 messages are well-formed), C11 (presence) and C12 (oneofs).
 -/
 namespace Pb
-open Spec (Byte)
+open Spec
 
 /-! ### strictly ascending field numbers -/
 
@@ -394,5 +394,552 @@ theorem dwfEntries_mapPut {S : Schema} {kf vf : Field} {key : Val} {e : Msg}
           dwfEntries_mapPut hwe he tl h3, Bool.and_self]
   | .cons (.num n) tl, h => by simp [dwfEntries, dwfEntry] at h
   | .cons (.bytes b) tl, h => by simp [dwfEntries, dwfEntry] at h
+
+theorem leValue_lt : ∀ (l : List Byte), leValue l < 256 ^ l.length
+  | [] => by simp [leValue]
+  | x :: r => by
+    have := leValue_lt r
+    have hx := x.isLt
+    simp only [leValue, List.length_cons, Nat.pow_succ]
+    omega
+
+theorem decFixed_lt {k : Nat} {b : List Byte} {v n : Nat} (h : decFixed k b = .ok (v, n)) : v < 256 ^ k := by
+  unfold decFixed at h
+  split at h
+  · simp at h
+  · simp only [Except.ok.injEq, Prod.mk.injEq] at h
+    rw [← h.1]
+    have := leValue_lt (b.take k)
+    have hl : (b.take k).length = k := by simp only [List.length_take]; omega
+    rwa [hl] at this
+
+/-- what `decScalar` returns is a well-formed scalar of the field -/
+theorem decScalar_wf {f : Field} {wt : Nat} {val : List Byte} {v : Val} (hm : f.kind.isMessage = false)
+    (h : decScalar f wt val = some (.ok v)) : wfScalar f v = true := by
+  unfold decScalar at h
+  split at h
+  · simp at h
+  · split at h
+    · rename_i hw
+      split at h
+      · rename_i x n heq
+        simp only [Option.some.injEq, Except.ok.injEq] at h; subst h
+        have hc := canonVarint_canon hw (decVarint_lt heq)
+        simp only [wfScalar, Bool.and_eq_true, decide_eq_true_eq]
+        exact ⟨by cases hk : f.kind <;> simp [hk, Kind.wireType, Kind.isNumeric] at hw ⊢, hc⟩
+      · simp at h
+    · rename_i hw
+      split at h
+      · rename_i x n heq
+        simp only [Option.some.injEq, Except.ok.injEq] at h; subst h
+        simp only [wfScalar, Bool.and_eq_true, decide_eq_true_eq]
+        exact ⟨by cases hk : f.kind <;> simp [hk, Kind.wireType, Kind.isNumeric] at hw ⊢, canonFixed32_canon x hw⟩
+      · simp at h
+    · rename_i hw
+      split at h
+      · rename_i x n heq
+        simp only [Option.some.injEq, Except.ok.injEq] at h; subst h
+        have hx := decFixed_lt heq
+        have e : (256:Nat) ^ 8 = 2 ^ 64 := by decide
+        rw [e] at hx
+        simp only [wfScalar, Bool.and_eq_true, decide_eq_true_eq]
+        refine ⟨by cases hk : f.kind <;> simp [hk, Kind.wireType, Kind.isNumeric] at hw ⊢, ?_⟩
+        cases hk : f.kind <;> simp [hk, Kind.wireType] at hw <;> simp only [CanonNum] <;> exact hx
+      · simp at h
+    · rename_i hw
+      split at h
+      · rename_i p n heq
+        split at h
+        · simp at h
+        · rename_i hu
+          simp only [Option.some.injEq, Except.ok.injEq] at h; subst h
+          have hl := decBytes_lt heq
+          have hkind : f.kind = .string ∨ f.kind = .bytes := by
+            cases hk : f.kind <;> simp [hk, Kind.wireType, Kind.isMessage] at hw hm ⊢
+          simp only [wfScalar, Bool.and_eq_true, Bool.or_eq_true, decide_eq_true_eq, Bool.not_eq_true']
+          refine ⟨⟨hkind, hl⟩, ?_⟩
+          simpa using hu
+      · simp at h
+    · simp at h
+
+theorem decPacked_wf {S : Schema} {f : Field} (hnum : f.kind.isNumeric = true) : ∀ (fuel : Nat) (b : List Byte) (vs : Vals),
+    decPacked f.kind fuel b = .ok vs → dwfVals S f vs = true
+  | 0, _, _, h => by simp [decPacked] at h
+  | fuel + 1, [], vs, h => by
+    simp only [decPacked, Except.ok.injEq] at h; subst h; rfl
+  | fuel + 1, x :: r, vs, h => by
+    rw [decPacked_succ f.kind fuel (by simp)] at h
+    have hm := isMessage_false_of_numeric hnum
+    have step : ∀ (v : Val) (n : Nat), wfScalar f v = true →
+        Except.map (Vals.cons v) (decPacked f.kind fuel ((x :: r).drop n)) = .ok vs → dwfVals S f vs = true := by
+      intro v n hv hr
+      cases hd : decPacked f.kind fuel ((x :: r).drop n) with
+      | error e => simp [hd, Except.map] at hr
+      | ok tl =>
+        simp only [hd, Except.map, Except.ok.injEq] at hr; subst hr
+        have ih := decPacked_wf (S := S) hnum fuel _ tl hd
+        have hv' : dwfVal S f v = true := by
+          cases v with
+          | msg m => simp [wfScalar] at hv
+          | num n => simp [dwfVal, hm, hv]
+          | bytes b => simp [dwfVal, hm, hv]
+        simp [dwfVals, hv', ih]
+    split at h
+    · rename_i hw
+      split at h
+      · rename_i v n heq
+        refine step _ n ?_ h
+        simp only [wfScalar, hnum, Bool.true_and, decide_eq_true_eq]
+        exact canonVarint_canon hw (decVarint_lt heq)
+      · simp at h
+    · rename_i hw
+      split at h
+      · rename_i v n heq
+        refine step _ n ?_ h
+        simp only [wfScalar, hnum, Bool.true_and, decide_eq_true_eq]
+        exact canonFixed32_canon v hw
+      · simp at h
+    · rename_i hw
+      split at h
+      · rename_i v n heq
+        refine step _ n ?_ h
+        have hx := decFixed_lt heq
+        have e : (256:Nat) ^ 8 = 2 ^ 64 := by decide
+        rw [e] at hx
+        simp only [wfScalar, hnum, Bool.true_and, decide_eq_true_eq]
+        cases hk : f.kind <;> simp [hk, Kind.wireType] at hw <;> simp only [CanonNum] <;> exact hx
+      · simp at h
+    · simp at h
+
+/-! ### schema conditions the decoder relies on (every descriptor built by protodesc satisfies them) -/
+
+/-- map entry types: the key is a scalar; absent keys/values default to well-formed scalars -/
+def entryDeclOK (kf vf : Field) : Bool :=
+  !kf.kind.isMessage && wfScalar kf (defaultScalar kf) && (vf.kind.isMessage || wfScalar vf (defaultScalar vf))
+
+/-- repeated and map fields are not oneof members; map entry types are as above -/
+def fieldDeclOK (S : Schema) (f : Field) : Bool :=
+  (if f.card = .repeated ∨ f.card = .map then f.oneof.isNone else true) &&
+  (if f.card = .map then
+    (match (S.msg f.sub).find 1, (S.msg f.sub).find 2 with
+     | some kf, some vf => entryDeclOK kf vf
+     | _, _ => true)
+   else true)
+
+def schemaOK (S : Schema) : Bool := S.msgs.all fun d => d.fields.all (fieldDeclOK S)
+
+theorem schemaOK_find {S : Schema} (h : schemaOK S = true) {mi n : Nat} {f : Field}
+    (hf : (S.msg mi).find n = some f) : fieldDeclOK S f = true := by
+  unfold schemaOK at h
+  rw [List.all_eq_true] at h
+  unfold MsgD.find at hf
+  have hmem := List.mem_of_find?_eq_some hf
+  unfold Schema.msg at hmem
+  by_cases hi : mi < S.msgs.length
+  · have : S.msgs.getD mi ⟨[]⟩ = S.msgs[mi] := by simp [List.getD, hi]
+    rw [this] at hmem
+    have := h _ (List.getElem_mem hi)
+    rw [List.all_eq_true] at this
+    exact this f hmem
+  · have : S.msgs.getD mi ⟨[]⟩ = ⟨[]⟩ := by simp [List.getD, hi]
+    rw [this] at hmem; simp at hmem
+
+/-! ### the invariant is kept by each update the decoder performs -/
+
+section
+variable {S : Schema} {mi : Nat} {fs : Fields} {u : List Byte} {f : Field}
+
+theorem dwf_appendList (h : dwfMsg S mi (.mk fs u) = true) (hf : (S.msg mi).find f.num = some f)
+    (h1 : 1 ≤ f.num) (h2 : f.num ≤ maxValidNumber) (hc : f.card = .repeated) (ho : f.oneof = none)
+    {vs : Vals} (hvs : dwfVals S f vs = true) (u' : List Byte) :
+    dwfMsg S mi (.mk (appendList fs f.num vs) u') = true := by
+  rw [dwfMsg_iff] at h ⊢
+  obtain ⟨hs, ha, hp⟩ := h
+  refine ⟨sortedFrom_appendList vs h1 hs, AtMostOne_appendList vs hf ho ha, ?_⟩
+  intro n fv hn
+  rw [get?_appendList] at hn
+  split at hn
+  · exact hp n fv hn
+  · rename_i hnil
+    split at hn
+    · rename_i hnum
+      subst hnum
+      simp only [Option.some.injEq] at hn; subst hn
+      refine ⟨h2, f, hf, ?_⟩
+      have hold : dwfVals S f (fs.listAt f.num) = true := by
+        unfold Fields.listAt
+        split
+        · rename_i o ho'
+          obtain ⟨_, g, hg, hv⟩ := hp _ _ ho'
+          rw [hf] at hg; cases hg
+          simp only [dwfFVal, hc, Bool.and_eq_true] at hv; exact hv.2
+        · rfl
+      have hne : ((fs.listAt f.num).append vs).isNil = false := by
+        rw [Vals.isNil_append]; simp at hnil; simp [hnil]
+      simp only [dwfFVal, hne, hc, Bool.not_false, Bool.true_and]
+      exact dwfVals_append _ _ hold hvs
+    · exact hp n fv hn
+
+theorem dwf_mapSet (h : dwfMsg S mi (.mk fs u) = true) (hf : (S.msg mi).find f.num = some f)
+    (h1 : 1 ≤ f.num) (h2 : f.num ≤ maxValidNumber) (hc : f.card = .map) (ho : f.oneof = none)
+    {kf vf : Field} (hk : (S.msg f.sub).find 1 = some kf) (hv : (S.msg f.sub).find 2 = some vf)
+    {key : Val} {e : Msg} (hwe : dwfEntry S kf vf (.msg e) = true) (he : entryKey e = some key)
+    {old : Vals} (hold : fs.get? f.num = some (.many old) ∨ old = .nil) (u' : List Byte) :
+    dwfMsg S mi (.mk (fs.set f.num (.many (mapPut old key e))) u') = true := by
+  rw [dwfMsg_iff] at h ⊢
+  obtain ⟨hs, ha, hp⟩ := h
+  refine ⟨Fields.sortedFrom_set _ h1 hs, AtMostOne_set _ hf (OthersCleared_of_none ho fs) ha, ?_⟩
+  intro n fv hn
+  rw [Fields.get?_set] at hn
+  split at hn
+  · rename_i hnum
+    subst hnum
+    simp only [Option.some.injEq] at hn; subst hn
+    refine ⟨h2, f, hf, ?_⟩
+    have holdw : dwfEntries S kf vf old = true := by
+      rcases hold with hg | hnil
+      · obtain ⟨_, g, hg', hv'⟩ := hp _ _ hg
+        rw [hf] at hg'; cases hg'
+        simp only [dwfFVal, hc, hk, hv, Bool.and_eq_true] at hv'; exact hv'.2
+      · subst hnil; rfl
+    simp only [dwfFVal, mapPut_isNil, hc, hk, hv, Bool.not_false, Bool.true_and]
+    exact dwfEntries_mapPut hwe he old holdw
+  · exact hp n fv hn
+
+theorem dwf_setMsg (h : dwfMsg S mi (.mk fs u) = true) (hf : (S.msg mi).find f.num = some f)
+    (h1 : 1 ≤ f.num) (h2 : f.num ≤ maxValidNumber) (hc1 : f.card ≠ .repeated) (hc2 : f.card ≠ .map)
+    (hm : f.kind.isMessage = true) {sub : Msg} (hsub : dwfMsg S f.sub sub = true) (u' : List Byte) :
+    dwfMsg S mi (.mk ((match f.oneof with
+      | some o => Fields.clearOneof (S.msg mi) o f.num fs
+      | none => fs).set f.num (.one (.msg sub))) u') = true := by
+  rw [dwfMsg_iff] at h ⊢
+  obtain ⟨hs, ha, hp⟩ := h
+  have hs' : (match f.oneof with
+      | some o => Fields.clearOneof (S.msg mi) o f.num fs
+      | none => fs).sortedFrom 1 := by
+    cases f.oneof with
+    | none => exact hs
+    | some o => exact Fields.sortedFrom_clearOneof _ o _ hs
+  refine ⟨Fields.sortedFrom_set _ h1 hs', AtMostOne_set _ hf (OthersCleared_clearOneofFor _ f fs)
+    (AtMostOne_clearOneofFor f ha), ?_⟩
+  intro n fv hn
+  rw [Fields.get?_set] at hn
+  split at hn
+  · rename_i hnum
+    subst hnum
+    simp only [Option.some.injEq] at hn; subst hn
+    refine ⟨h2, f, hf, ?_⟩
+    simp [dwfFVal, dwfVal, hc1, hc2, hm, hsub, Val.isZero]
+  · cases hof : f.oneof with
+    | none => simp only [hof] at hn; exact hp n fv hn
+    | some o =>
+      simp only [hof, Fields.get?_clearOneof] at hn
+      split at hn
+      · cases hn
+      · exact hp n fv hn
+
+theorem dwf_cur (h : dwfMsg S mi (.mk fs u) = true) (hf : (S.msg mi).find f.num = some f) {x : Msg}
+    (hx : (match f.oneof with
+      | some o => Fields.clearOneof (S.msg mi) o f.num fs
+      | none => fs).get? f.num = some (.one (.msg x))) : dwfMsg S f.sub x = true := by
+  rw [dwfMsg_iff] at h
+  obtain ⟨hs, ha, hp⟩ := h
+  have hx' : fs.get? f.num = some (.one (.msg x)) := by
+    cases hof : f.oneof with
+    | none => simpa only [hof] using hx
+    | some o =>
+      simp only [hof, Fields.get?_clearOneof] at hx
+      split at hx
+      · cases hx
+      · exact hx
+  obtain ⟨_, g, hg, hv⟩ := hp _ _ hx'
+  rw [hf] at hg; cases hg
+  simp only [dwfFVal, dwfVal, Bool.and_eq_true] at hv
+  exact hv.1.2.2
+
+theorem dwf_setSingular (h : dwfMsg S mi (.mk fs u) = true) (hf : (S.msg mi).find f.num = some f)
+    (h1 : 1 ≤ f.num) (h2 : f.num ≤ maxValidNumber) (hc1 : f.card ≠ .repeated) (hc2 : f.card ≠ .map)
+    (hm : f.kind.isMessage = false) {v : Val} (hv : wfScalar f v = true) (u' : List Byte) :
+    dwfMsg S mi (.mk (setSingular (S.msg mi) f fs v) u') = true := by
+  rw [dwfMsg_iff] at h ⊢
+  obtain ⟨hs, ha, hp⟩ := h
+  refine ⟨sortedFrom_setSingular _ f v h1 hs, AtMostOne_setSingular v hf ha, ?_⟩
+  intro n fv hn
+  rw [get?_setSingular] at hn
+  split at hn
+  · rename_i hnum
+    subst hnum
+    split at hn
+    · cases hn
+    · rename_i hz
+      simp only [Option.some.injEq] at hn; subst hn
+      refine ⟨h2, f, hf, ?_⟩
+      have hvv : dwfVal S f v = true := by
+        cases v with
+        | msg m => simp [wfScalar] at hv
+        | num n => simp [dwfVal, hm, hv]
+        | bytes b => simp [dwfVal, hm, hv]
+      have hz' : (f.card == Card.implicit && v.isZero) = false := by
+        simpa using hz
+      simp [dwfFVal, hc1, hc2, hvv, hz']
+  · split at hn
+    · cases hn
+    · exact hp n fv hn
+
+end
+
+/-- state of the map-entry loop: key and value read so far are well-formed -/
+def EntInv (S : Schema) (kf vf : Field) (k v : Option Val) : Prop :=
+  (∀ kv, k = some kv → wfScalar kf kv = true) ∧ (∀ vv, v = some vv → dwfVal S vf vv = true) ∧
+  (vf.kind.isMessage = true → v.isSome = true)
+
+theorem dwfVal_of_scalar {S : Schema} {f : Field} {v : Val} (hm : f.kind.isMessage = false)
+    (hv : wfScalar f v = true) : dwfVal S f v = true := by
+  cases v with
+  | msg m => simp [wfScalar] at hv
+  | num n => simp [dwfVal, hm, hv]
+  | bytes b => simp [dwfVal, hm, hv]
+
+theorem dwfMsg_unknown {S : Schema} {mi : Nat} {fs : Fields} {u : List Byte} (u' : List Byte)
+    (h : dwfMsg S mi (.mk fs u) = true) : dwfMsg S mi (.mk fs u') = true := by
+  simpa only [dwfMsg] using h
+
+/-- **the decoder establishes and keeps the invariant**, on any input -/
+theorem dec_inv (S : Schema) (hS : schemaOK S = true) : ∀ (fuel : Nat),
+    (∀ mi m b depth dis r, dwfMsg S mi m = true → decMsg fuel S mi m b depth dis = .ok r → dwfMsg S mi r = true) ∧
+    (∀ mi m f wt val depth dis m', dwfMsg S mi m = true → (S.msg mi).find f.num = some f → 1 ≤ f.num →
+      f.num ≤ maxValidNumber → decField fuel S mi m f wt val depth dis = .ok m' → dwfMsg S mi m' = true) ∧
+    (∀ kf vf k v b depth dis k' v', kf.kind.isMessage = false → EntInv S kf vf k v → decEntry fuel S kf vf k v b depth dis = .ok (k', v') →
+      EntInv S kf vf k' v')
+  | 0 => by
+    refine ⟨?_, ?_, ?_⟩ <;> intros <;> simp_all [decMsg, decField, decEntry]
+  | fuel + 1 => by
+    obtain ⟨ihA, ihB, ihC⟩ := dec_inv S hS fuel
+    refine ⟨?_, ?_, ?_⟩
+    · intro mi m b depth dis r hm h
+      unfold decMsg at h
+      split at h
+      · simp only [Except.ok.injEq] at h; subst h; exact hm
+      · split at h
+        · simp at h
+        · rename_i num wt tl ht
+          simp only at h
+          by_cases hmax : num > maxValidNumber
+          · simp [hmax] at h
+          · simp only [hmax, if_false] at h
+            have hnum1 : 1 ≤ num := by
+              unfold decTag at ht
+              split at ht
+              · simp at ht
+              · simp only at ht
+                split at ht
+                · simp at ht
+                · split at ht
+                  · simp at ht
+                  · simp only [Except.ok.injEq, Prod.mk.injEq] at ht; omega
+            cases hfind : (S.msg mi).find num with
+            | none =>
+              simp only [hfind] at h
+              split at h
+              · simp at h
+              · refine ihA _ _ _ _ _ _ ?_ h
+                cases m with
+                | mk fs u =>
+                  cases dis
+                  · exact dwfMsg_unknown _ hm
+                  · exact hm
+            | some f =>
+              simp only [hfind] at h
+              have hfn := MsgD.find_num_eq hfind
+              subst hfn
+              cases hstep : decField fuel S mi m f wt (b.drop tl) depth dis with
+              | err e => simp [hstep] at h
+              | ok m' =>
+                simp only [hstep] at h
+                split at h
+                · simp at h
+                · exact ihA _ _ _ _ _ _ (ihB _ _ _ _ _ _ _ _ hm hfind hnum1 (by omega) hstep) h
+              | unknown =>
+                simp only [hstep] at h
+                split at h
+                · simp at h
+                · refine ihA _ _ _ _ _ _ ?_ h
+                  cases m with
+                  | mk fs u =>
+                    cases dis
+                    · exact dwfMsg_unknown _ hm
+                    · exact hm
+    · intro mi m f wt val depth dis m' hm hf h1 h2 h
+      have hdecl := schemaOK_find hS hf
+      cases m with
+      | mk fs u =>
+      unfold decField at h
+      simp only [Msg.fields, Msg.unknown] at h
+      split at h
+      · -- repeated
+        rename_i hc
+        have ho : f.oneof = none := by
+          simp only [fieldDeclOK, hc, true_or, if_true, Bool.and_eq_true, Option.isNone_iff_eq_none] at hdecl
+          exact hdecl.1
+        split at h
+        · rename_i hmsg
+          split at h
+          · cases h
+          · cases h
+          · split at h
+            · cases h
+            · split at h
+              · cases h
+              · rename_i sub hsub
+                simp only [Step.ok.injEq] at h; subst h
+                have hw := ihA _ _ _ _ _ _ (dwfMsg_empty S f.sub) hsub
+                exact dwf_appendList hm hf h1 h2 hc ho (by simp [dwfVals, dwfVal, hmsg, hw]) u
+        · rename_i hmsg
+          have hmsg' : f.kind.isMessage = false := by simpa using hmsg
+          split at h
+          · rename_i hpk
+            simp only [Bool.and_eq_true] at hpk
+            split at h
+            · cases h
+            · split at h
+              · cases h
+              · rename_i vs hvs
+                simp only [Step.ok.injEq] at h; subst h
+                exact dwf_appendList hm hf h1 h2 hc ho (decPacked_wf hpk.1 _ _ _ hvs) u
+          · split at h
+            · cases h
+            · cases h
+            · rename_i v hv
+              simp only [Step.ok.injEq] at h; subst h
+              have hw := dwfVal_of_scalar (S := S) hmsg' (decScalar_wf hmsg' hv)
+              exact dwf_appendList hm hf h1 h2 hc ho (by simp [dwfVals, hw]) u
+      · -- map
+        rename_i hc
+        have ho : f.oneof = none := by
+          simp only [fieldDeclOK, hc, or_true, if_true, Bool.and_eq_true, Option.isNone_iff_eq_none] at hdecl
+          exact hdecl.1
+        split at h
+        · cases h
+        · split at h
+          · cases h
+          · split at h
+            · cases h
+            · rename_i p n hp
+              try dsimp only at h
+              split at h
+              · rename_i kf vf hk hv
+                have hent : entryDeclOK kf vf = true := by
+                  simp only [fieldDeclOK, hc, or_true, if_true, hk, hv, Bool.and_eq_true] at hdecl
+                  exact hdecl.2
+                simp only [entryDeclOK, Bool.and_eq_true, Bool.or_eq_true, Bool.not_eq_true'] at hent
+                obtain ⟨⟨hkm, hkd⟩, hvd⟩ := hent
+                split at h
+                · cases h
+                · rename_i k v hkv
+                  have hinit : EntInv S kf vf none (if vf.kind.isMessage = true then some (.msg Msg.empty) else none) := by
+                    refine ⟨(by intro kv hk'; cases hk'), ?_, ?_⟩
+                    · intro vv hvv
+                      split at hvv
+                      · rename_i hvm
+                        cases hvv
+                        simp [dwfVal, hvm, dwfMsg_empty]
+                      · cases hvv
+                    · intro hvm; simp [hvm]
+                  obtain ⟨ek, ev, evs⟩ := ihC _ _ _ _ _ _ _ _ _ hkm hinit hkv
+                  have hkey : wfScalar kf (k.getD (defaultScalar kf)) = true := by
+                    cases k with
+                    | none => exact hkd
+                    | some kv => exact ek kv rfl
+                  have hval : dwfVal S vf (v.getD (defaultScalar vf)) = true := by
+                    cases v with
+                    | some vv => exact ev vv rfl
+                    | none =>
+                      rcases hvd with hvm | hvd
+                      · have := evs hvm; simp at this
+                      · simp only [Option.getD_none]
+                        by_cases hvm : vf.kind.isMessage = true
+                        · have := evs hvm; simp at this
+                        · exact dwfVal_of_scalar (by simpa using hvm) hvd
+                  try dsimp only at h
+                  have hwe : dwfEntry S kf vf (.msg (.mk (.cons 1 (.one (k.getD (defaultScalar kf)))
+                      (.cons 2 (.one (v.getD (defaultScalar vf))) .nil)) [])) = true := by
+                    simp [dwfEntry, hkey, hval]
+                  have hek : entryKey (.mk (.cons 1 (.one (k.getD (defaultScalar kf)))
+                      (.cons 2 (.one (v.getD (defaultScalar vf))) .nil)) []) = some (k.getD (defaultScalar kf)) := by
+                    simp [entryKey, Fields.get?]
+                  split at h
+                  · rename_i vs hvs
+                    simp only [Step.ok.injEq] at h; subst h
+                    exact dwf_mapSet hm hf h1 h2 hc ho hk hv hwe hek (Or.inl hvs) u
+                  · simp only [Step.ok.injEq] at h; subst h
+                    exact dwf_mapSet hm hf h1 h2 hc ho hk hv hwe hek (Or.inr rfl) u
+              · cases h
+      · -- singular
+        rename_i hc1 hc2
+        have hc1' : f.card ≠ .repeated := fun e => hc1 e
+        have hc2' : f.card ≠ .map := fun e => hc2 e
+        split at h
+        · rename_i hmsg
+          split at h
+          · cases h
+          · cases h
+          · try dsimp only at h
+            split at h
+            · cases h
+            · split at h
+              · cases h
+              · rename_i sub hsub
+                simp only [Step.ok.injEq] at h; subst h
+                have hcur : dwfMsg S f.sub (match (match f.oneof with
+                    | some o => Fields.clearOneof (S.msg mi) o f.num fs
+                    | none => fs).get? f.num with
+                  | some (.one (.msg x)) => x
+                  | _ => Msg.empty) = true := by
+                  split
+                  · rename_i x hx; exact dwf_cur hm hf hx
+                  · exact dwfMsg_empty S f.sub
+                have hw := ihA _ _ _ _ _ _ hcur hsub
+                exact dwf_setMsg hm hf h1 h2 hc1' hc2' hmsg hw u
+        · rename_i hmsg
+          have hmsg' : f.kind.isMessage = false := by simpa using hmsg
+          split at h
+          · cases h
+          · cases h
+          · rename_i v hv
+            simp only [Step.ok.injEq] at h; subst h
+            exact dwf_setSingular hm hf h1 h2 hc1' hc2' hmsg' (decScalar_wf hmsg' hv) u
+    · intro kf vf k v b depth dis k' v' hkm hinv h
+      obtain ⟨ek, ev, evs⟩ := hinv
+      unfold decEntry at h
+      split at h
+      · simp only [ite_self, Except.ok.injEq, Prod.mk.injEq] at h
+        obtain ⟨rfl, rfl⟩ := h
+        exact ⟨ek, ev, evs⟩
+      · split at h
+        · cases h
+        · rename_i num wt tl ht
+          dsimp only at h
+          by_cases hmax : num > maxValidNumber
+          · simp [hmax] at h
+          · simp only [hmax, if_false] at h
+            repeat' split at h
+            all_goals first
+              | (cases h; done)
+              | exact ihC _ _ _ _ _ _ _ _ _ hkm ⟨ek, ev, evs⟩ h
+              | (refine ihC _ _ _ _ _ _ _ _ _ hkm ⟨?_, ev, evs⟩ h
+                 intro kv hkv; cases hkv
+                 exact decScalar_wf hkm ‹decScalar kf _ _ = some (.ok _)›)
+              | (refine ihC _ _ _ _ _ _ _ _ _ hkm ⟨ek, ?_, by intro; rfl⟩ h
+                 intro vv hvv; cases hvv
+                 first
+                   | exact dwfVal_of_scalar (by simpa using ‹¬ vf.kind.isMessage = true›)
+                       (decScalar_wf (by simpa using ‹¬ vf.kind.isMessage = true›) ‹decScalar vf _ _ = some (.ok _)›)
+                   | (have hvm : vf.kind.isMessage = true := by assumption
+                      simp only [dwfVal, hvm, Bool.true_and]
+                      refine ihA _ _ _ _ _ _ ?_ ‹decMsg _ _ _ _ _ _ _ = .ok _›
+                      split
+                      · have := ev _ rfl
+                        simpa only [dwfVal, hvm, Bool.true_and] using this
+                      · exact dwfMsg_empty _ _))
 
 end Pb
